@@ -102,6 +102,9 @@ def judge(ctx, hs, recs):
             nbad += 1
         else:
             ndrift += 1
+            os.makedirs(os.path.join(vlib.VERIF, "replays"), exist_ok=True)
+            json.dump({"history": hist[x["id"]], "result": x, "trace": tr},
+                      open(os.path.join(vlib.VERIF, "replays", "C10-drift-%d-%d.json" % (ctx.seed, x["id"])), "w"))
             if ndrift <= 5:
                 ctx.note("DRIFT history %d: ContainerProto matched %d of %d events; ops=%s" % (
                     x["id"], x["mark"], x["total"], json.dumps(hist[x["id"]]["ops"])))
